@@ -169,7 +169,11 @@ macro_rules! battery {
                         let r3 = format!("{} {} {} {}", r3, res(Time::from_hms(v, (e & 63) as u32, (a & 63) as u32), show_t), res(Time::from_seconds(v), show_t),
                             res(Time::from_nanos(if e % 3 == 0 { 86_400_000_000_000 + (d as u64 % 3) } else if e % 3 == 1 { (d as u64).wrapping_mul(1_000_003) } else { 4_294_967_296_000_000_000u64.wrapping_mul(1 + (d as u64 % 4)).wrapping_add(d as u64 % 1000) }), show_t));
                         // C09 looks at setters and clears, C10 at what offsets do to readings and conversions, C15 (projected to Ok / Err) at all of it
-                        match prop { "C09" => r, "C10" => r2, _ => format!("{} || {} || {}", r, r2, r3) }
+                        match prop {
+                            "C09" => r,
+                            "C10" => format!("{} | {}", r2, res(Offset::from_hms((f % 40) as i32, (e & 63) as u32, (a & 63) as u32), |o| format!("{:?} {:?}", o, o.resolve_hms()))),
+                            _ => format!("{} || {} || {}", r, r2, r3),
+                        }
                     }
                     "C11" => {
                         let x = dt(a, b, cc);
@@ -219,7 +223,7 @@ macro_rules! battery {
                             let (m2, w2, d2) = (1 + e.rem_euclid(12), 1 + (e / 12).rem_euclid(5), (e / 60).rem_euclid(7));
                             match (e / 420).rem_euclid(4) {
                                 0 => format!("AAA-1BBB,M{}.{}.{},M{}.{}.{}", m1, w1, d1, m2, w2, d2),
-                                1 => format!("AAA5BBB,M{}.{}.{}/{},M{}.{}.{}/{}:30", m1, w1, d1, d.rem_euclid(25), m2, w2, d2, (d / 25).rem_euclid(24)),
+                                1 => format!("AAA5BBB,M{}.{}.{}/{},M{}.{}.{}/{}:30", m1, w1, d1, d.rem_euclid(49) - 24, m2, w2, d2, (d / 25).rem_euclid(24)),
                                 2 => format!("AAA-3BBB,J{},J{}/{}", 1 + cc.rem_euclid(365), 1 + e.rem_euclid(365), d.rem_euclid(25)),
                                 _ => format!("AAA8BBB,{},{}", cc.rem_euclid(365), e.rem_euclid(365)),
                             }
